@@ -353,7 +353,9 @@ impl Run {
     pub fn new(id: &'static str, level: &'static str) -> Run {
         mon::install();
         let cli = Cli::parse();
-        let known = load_known(&cli.root.join("known_findings.txt"), id);
+        // VERIF_KNOWN_FINDINGS overrides the file (used to regenerate the witnesses of open entries)
+        let known_path = std::env::var("VERIF_KNOWN_FINDINGS").map(PathBuf::from).unwrap_or_else(|_| cli.root.join("known_findings.txt"));
+        let known = load_known(&known_path, id);
         Run {
             id,
             level,
@@ -664,7 +666,8 @@ impl Run {
         }
         for p in &self.cli.embed {
             if let Ok(t) = fs::read_to_string(p) {
-                let name = p.file_stem().and_then(|s| s.to_str()).unwrap_or("part").to_string();
+                let stem = p.file_stem().and_then(|s| s.to_str()).unwrap_or("part");
+                let name = stem.rsplit('-').next().unwrap_or(stem).to_string();
                 cov.set(&format!("part_{}", name), J::Raw(t));
             }
         }
